@@ -903,9 +903,9 @@ def run_opcodes(chk, scenarios):
         a, b = f["pair"][0], f["pair"][1]
         same = [k for k in ("sig", "sigF") if (k + "A") in f and f[k + "A"] == f[k + "B"]]
         if a != b and same:
-            chk.violation("two DIFFERENT symbols (opcodes %s and %s = %s + 2^%s) give the same signature %s to the programs "
+            chk.violation("two DIFFERENT symbols (opcodes %s and %s = %s + %d) give the same signature %s to the programs "
                           "`A` and `B`%s although they compute different values (%s vs %s): pack() does not hash "
-                          "every byte of the opcode" % (a, b, a, args[1] if args[0] == "synthetic" else "16",
+                          "every byte of the opcode" % (a, b, a, int(b) - int(a),
                                                         " ".join(f["sigA"]), " and to FADD(A,X) / FADD(B,X)" if "sigF" in same else "",
                                                         f["outA"][0], f["outB"][0]), rp, tags=tags)
 
@@ -1030,7 +1030,8 @@ def run(chk, replay=None):
             if a[0] != "pk":
                 broken.append("driver answered `%s` for `%s`" % (ans[base + j][:100], content[:200]))
                 continue
-            if kind in ("mep", "team") and (a[2] != "1" or a[3] != "1"):
+            if kind in ("mep", "team") and (a[2] != "1" or a[3] != "1") and \
+                    len([b for b in broken if b.startswith("model/implementation mismatch")]) < 3:
                 broken.append("model/implementation mismatch on a real individual (wf=%s, pack=packTree∘unfold: %s): %s"
                               % (a[2], a[3], content[:300]))
             smap, gmap = (tstreams, tsigs) if kind == "team" else (streams, sigs)
